@@ -3,7 +3,9 @@ CaptureReader::{new, captured, captured_unread_size, rewind, capture_to_end, cap
 is_source_eof, into_inner, read}, FusedReader::{new, read}, GuardedCaptureReader::{new,
 rewind_and_borrow_mut, rewind_and_take}, Handle::{from_slice, borrow_mut}, Ref::prefix, and `impl From<Handle> for Input`
 (a slice handle becomes that slice; a reader that reached EOF during detection becomes the slice of EVERYTHING captured, no
-byte lost; any other reader stays a reader) -- the conversion that U-MP-X, U-JSN-V and U-CHK-V take as an assumed axiom.
+byte lost; any other reader stays a reader) -- the conversion that U-MP-X, U-JSN-V and U-CHK-V take as an assumed axiom;
+`Cow::try_from(Handle)` (TOML input: slice passed through; a reader is read to its END before the buffer is handed out, what
+was captured stays at the front, a reader error is returned and never swallowed).
 
 Only specification text lives here; bodies are extracted verbatim from /repo on every run.
 What the extraction changes (all visible as markers in the generated file and undone by the token check):
@@ -14,8 +16,9 @@ What the extraction changes (all visible as markers in the generated file and un
     `self.` renamed to `verus_self.` in the two-line body;
   * (T6') `FusedReader::new(cursor).chain(source)` is redirected to the stand-in `io_chain(a, b)` (assumed: some reader);
   * `pub` added to `enum Input` in the generated file (the contract of the public trait method names its variants);
-  * dropped: `Cow::try_from(Handle)` (a trait method cannot carry the `wf` precondition that `capture_to_end` needs),
-    `Handle::from_reader`; tests.  These stay with the Kani unit U-CAP.
+  * (T4') `impl TryFrom<Handle> for Cow<[u8]>`: `try_from` is placed at module level as a free function with the impl's lifetime
+    parameter declared on it (a trait method cannot carry the `wf` precondition that `capture_to_end` needs; Cow is foreign);
+  * dropped: `Handle::from_reader` (Box<dyn Read> construction); tests.  These stay with the Kani unit U-CAP.
 The abstract view of a CaptureReader is (captured bytes, cursor position, source_eof); wf == position <= len.
 """
 from . import std_specs as S
@@ -109,6 +112,12 @@ INPUT_FROM_SPEC = '''ensures
             &&& (handle.rd_eof() ==> (r matches Input::Slice(c) && c@ == handle.rd_captured()))
             &&& (!handle.rd_eof() ==> r is Reader)
         },'''
+# C02 / C12 (TOML input): the whole input as one slice -- a slice handle is passed through; a reader is read to its end and
+# everything captured so far stays at the front (no byte lost, none reordered); a reader error is returned
+TRY_FROM_SPEC = '''requires handle.hwf(),
+    ensures
+        handle.slice_v() matches Some(b) ==> (r matches Ok(c) && c@ == b),
+        handle.slice_v() is None ==> (r matches Ok(c) ==> handle.rd_captured().is_prefix_of(c@) && (handle.rd_eof() ==> c@ == handle.rd_captured())),'''
 HANDLE_VIEW = r'''
     spec fn hwf(&self) -> bool {
         match self.0 { Source::Slice(_) => true, Source::Reader(g) => g.0.wf() }
@@ -197,6 +206,12 @@ ITEMS = [
                        # (T6') `a.chain(b)` -> stand-in `io_chain(a, b)`
                        rewrites=[dict(find=r'(FusedReader::new\(\s*\w+\s*\))\s*\.\s*chain\(\s*(\w+)\s*\)', to=r'io_chain(\1, \2)', expand=True)])),
     dict(raw='}'),
+    # (T4') `impl TryFrom<Handle> for Cow<[u8]>`: a trait method cannot carry the `wf` precondition and Cow is a foreign type, so
+    # `try_from` is placed at module level as a free function (its lifetime parameter, declared on the impl, is declared on the fn)
+    dict(src=SRC, kind='fn', name='try_from', within_impl=r"\bimpl\s*<'i>\s+TryFrom\s*<Handle\s*<'i>>\s+for\s+Cow\s*<'i,\s*\[u8\]>",
+         contract=dict(ret='r', spec=TRY_FROM_SPEC, prologue=BU, rewrites=[dict(find=r"^\s*\(", to="<'i>(", required=True)],
+                       # C12: the buffer is handed out only after the source was read to its end (a reader fault cannot be swallowed)
+                       inserts=[dict(before=r'let\s*\(\s*cursor\s*,\s*_\s*\)\s*=', text='proof { assert(r.source_eof); }')])),
     dict(raw="impl<'i, 'h> Ref<'i, 'h>\nwhere\n\t'i: 'h,\n{" + REF_VIEW),
     dict(src=SRC, kind='fn', name='prefix', within_impl=REF_IMPL, contract=dict(ret='r', spec=PREFIX_SPEC)),
     dict(raw='}'),
